@@ -415,6 +415,9 @@ func fieldOffsets(vs []sniproxy.VerifVal) []int {
 	return offs
 }
 
+// tailWant: for generated "body + k extra bytes" decode ops, k
+var tailWant = map[string]int{}
+
 func (g *gen) frameOps(ty string, vs []sniproxy.VerifVal) {
 	g.add("enc "+ty+" "+showVals(vs), true)
 	body, err := sniproxy.VerifEncode(ty, vs)
@@ -457,9 +460,12 @@ func (g *gen) frameOps(ty string, vs []sniproxy.VerifVal) {
 			g.rep.Count("prefix")
 		}
 	}
-	// tails
-	dec(append(append([]byte{}, body...), 0), true)
-	dec(append(append([]byte{}, body...), g.r.Bytes(1+g.r.Intn(1500))...), true)
+	// tails: a well-formed body followed by k more bytes must be reported as "k trailing bytes"
+	for _, tail := range [][]byte{{0}, g.r.Bytes(1 + g.r.Intn(1500))} {
+		b := append(append([]byte{}, body...), tail...)
+		dec(b, true)
+		tailWant[fmt.Sprintf("dec %s cap=%d %s", ty, capBuf, hx.Hex(b))] = len(tail)
+	}
 	g.rep.Count("tail")
 	// announced lengths and values overwritten
 	for _, o := range fieldOffsets(vs) {
@@ -801,6 +807,9 @@ func main() {
 	impl := make([]string, len(ops))
 	for i, op := range ops {
 		impl[i] = c.runOpShapes(op)
+		if k, ok := tailWant[op]; ok && !strings.HasPrefix(impl[i], fmt.Sprintf("tail %d ", k)) {
+			rep.Fail("trailing-bytes-not-reported:"+strings.Fields(op)[1], fmt.Sprintf("a well-formed %s followed by %d more bytes decodes as %q instead of reporting %d trailing bytes", strings.Fields(op)[1], k, impl[i], k), []string{op})
+		}
 	}
 	c.j.Clear()
 
